@@ -675,8 +675,6 @@ class XsdElement(XsdComponent, ParticleMixin,
                     reason = _("usage of %r is blocked") % xsd_type
                     context.validation_error(validation, self, reason, obj)
                 elif xsd_type not in self.xsi_types:
-                    self.xsi_types.add(xsd_type)
-
                     # For complex contents augments permanently the XSD elements
                     # that collect keys/keyrefs for enabled identities.
                     if xsd_type.has_complex_content():
@@ -687,6 +685,10 @@ class XsdElement(XsdComponent, ParticleMixin,
                                     counter.identity.update_elements(xpath_element)
                                 except TypeError as e:
                                     context.validation_error(validation, self, e, obj)
+
+                    # Mark the type as processed only after the augmentation: another
+                    # thread that finds the mark must find the identities updated.
+                    self.xsi_types.add(xsd_type)
 
         if xsd_type.abstract:
             reason = _("%r is abstract") % xsd_type
